@@ -23,6 +23,9 @@ package main
 //	                                               login.afterQuery (between LoginQuery and userLogin; when the login is
 //	                                               refused the point is never reached and the change runs afterwards)
 //	                                               -> <login>,<change>,<hash stored at the end | none>
+//	parcheck <rounds> <u1>:<pw1>,<u2>:<pw2>,…      ptt.CheckPasswd of SEVERAL users at once, one goroutine per pair, <rounds> calls each
+//	                                               -> per pair ok | refused | mixed | PANIC (comma separated); every
+//	                                               call is decided by that user's own stored hash, whoever else is checking
 //	blogin|bcheckpw <u> <pw> <want>                bbs.Login | bbs.CheckPasswd (the string-taking entry points)
 //	bchpw <u> <old> <new> <num> <seed> <want>      bbs.ChangePasswd
 //
@@ -54,6 +57,7 @@ import (
 	"os"
 	"strconv"
 	"strings"
+	"sync"
 	"time"
 
 	"github.com/Ptt-official-app/go-pttbbs/bbs"
@@ -429,6 +433,82 @@ func execLogin(line string, nontrivial bool) (out string, idx int) {
 			}
 		}
 		return
+	case "parcheck":
+		if len(ws) != 3 {
+			return bad()
+		}
+		rounds, e1 := strconv.Atoi(ws[1])
+		pairs := strings.Split(ws[2], ",")
+		if e1 != nil || rounds < 1 || rounds > 5000 || len(pairs) < 1 || len(pairs) > 16 {
+			return bad()
+		}
+		us, pws := make([][]byte, len(pairs)), make([][]byte, len(pairs))
+		for k, p := range pairs {
+			uw := strings.Split(p, ":")
+			if len(uw) != 2 {
+				return bad()
+			}
+			us[k], pws[k] = hx.UnHex(uw[0]), hx.UnHex(uw[1])
+		}
+		befores := make([][]byte, len(pairs))
+		for k := range pairs {
+			befores[k] = storedNow(us[k])
+		}
+		results := make([]string, len(pairs))
+		out = hx.CallT(120*time.Second, func() string {
+			var wg sync.WaitGroup
+			start := make(chan struct{})
+			for k := range pairs {
+				wg.Add(1)
+				go func(k int) {
+					defer wg.Done()
+					<-start
+					res := ""
+					for r := 0; r < rounds; r++ {
+						cur := func() (c string) {
+							defer func() {
+								if recover() != nil {
+									c = "PANIC"
+								}
+							}()
+							if err := ptt.CheckPasswd(toUserID(us[k]), append([]byte{}, pws[k]...), loginIP); err != nil {
+								return "refused"
+							}
+							return "ok"
+						}()
+						if res == "" {
+							res = cur
+						} else if res != cur {
+							res = "mixed"
+						}
+					}
+					results[k] = res
+				}(k)
+			}
+			close(start)
+			wg.Wait()
+			return strings.Join(results, ",")
+		})
+		idx = run.Op(line, out, fmt.Sprintf("parcheck:%d-users", len(pairs)), nontrivial)
+		if out == "PANIC" || out == "TIMEOUT" {
+			run.Fail(idx, "crash:login", fmt.Sprintf("parcheck: %s %s", out, hx.LastPanic))
+			return
+		}
+		for k := range pairs {
+			if !wellFormedHash(befores[k]) {
+				continue
+			}
+			exp := "refused"
+			if libcCrypt(pws[k], befores[k]) == string(befores[k][:13]) {
+				exp = "ok"
+			}
+			if results[k] != exp {
+				run.Fail(idx, "par:answer-from-another-record", fmt.Sprintf("%d users checked their passwords at once (%d calls each): ptt.CheckPasswd(%q, %q) answered %s, but the hash stored for this user, %q, says %s under libc crypt(3)",
+					len(pairs), rounds, us[k], pws[k], results[k], befores[k], exp))
+				break
+			}
+		}
+		return
 	case "stored":
 		if len(ws) != 2 {
 			return bad()
@@ -618,7 +698,7 @@ func (h *hist) lrace(u, stored, A, B []byte) {
 func (h *hist) stored(u []byte) { execLogin("stored "+hx.Hex(u), false) }
 
 var loginOps = map[string]bool{"reset": true, "sethash": true, "login": true, "loginfull": true, "checkpw": true, "chpw": true, "stored": true,
-	"blogin": true, "bcheckpw": true, "bchpw": true, "race": true, "lrace": true}
+	"blogin": true, "bcheckpw": true, "bchpw": true, "race": true, "lrace": true, "parcheck": true}
 
 var loginEnv *bbsenv.Env
 
@@ -826,6 +906,34 @@ func loginMain() {
 			h.login("login", u, A)
 			h.login("login", u, B)
 		}
+	}
+
+	// several users checking their passwords at once: every answer is decided by that user's own record
+	{
+		h := newHist(r, loginUsers)
+		for k, u := range loginUsers {
+			h.sethash(u, loginPws[k%5])
+		}
+		rounds := 300
+		if th {
+			rounds = 3000
+		}
+		for pass := 0; pass < 3; pass++ {
+			var ps []string
+			for k, u := range loginUsers {
+				pw := loginPws[k%5]
+				if pass == 1 && k%3 == 0 {
+					pw = loginPws[(k+1)%5] // a wrong one
+				}
+				if pass == 2 {
+					pw = loginPws[(k+pass)%5]
+				}
+				ps = append(ps, hx.Hex(u)+":"+hx.Hex(pw))
+			}
+			execLogin(fmt.Sprintf("parcheck %d %s", rounds, strings.Join(ps, ",")), true)
+		}
+		execLogin("parcheck 0 "+hx.Hex(loginUsers[0])+":"+hx.Hex(loginPws[0]), false) // malformed
+		execLogin("parcheck 5 "+hx.Hex(loginUsers[0]), false)
 	}
 
 	// NOT generated (round 7, time box): the `race` op (an outside write of the hash while a full ptt.Login is in flight)
